@@ -38,7 +38,7 @@ from contracts import c04_flow as FLOW
 from contracts import c04_meta as META
 from contracts import common
 from contracts.c03_exec import DT, I, S, B, K, fld, fld_at, fld_len, fun
-from contracts.c04_exec import BLEN, CONTENT, EMPTY, SEQMAX, IfaceExecutor
+from contracts.c04_exec import BLEN, CONTENT, EMPTY, SEQMAX, UNRECOGNISED, IfaceExecutor
 
 EXECUTOR = IfaceExecutor
 EXECUTOR_KW = {}
@@ -99,7 +99,10 @@ def table_contract(cls):
         if tv is None:
             return None
         n, lens = tv
-        return n, SEQMAX(lens, n, z3.IntVal(0))
+        sm = SEQMAX(lens, n, z3.IntVal(0))
+        # defining facts of the spec function max(..., default=0) used by the proofs: empty -> default, one row -> that row
+        c.seqmax_facts = z3.And(z3.Implies(n <= 0, sm == 0), z3.Implies(n == 1, sm == z3.Select(lens, 0)))
+        return n, sm
 
     def dim(c):
         r = c.result
@@ -113,16 +116,16 @@ def table_contract(cls):
     def e_rows(c):
         sh, d = shape(c), dim(c)
         if sh is None or d is None or not isinstance(d[0], VInt):
-            c.note = "result is not a TableDim with an int `rows` (or get_table() is not a list of rows)"
-            return z3.BoolVal(False)
+            c.note = "result is not a TableDim with an int `rows` (or get_table() is not a list of rows): shape not recognised"
+            return UNRECOGNISED
         return ops.int_term(d[0]) == sh[0]
 
     def e_cols(c):
         sh, d = shape(c), dim(c)
         if sh is None or d is None or not isinstance(d[1], VInt):
-            c.note = "result is not a TableDim with an int `columns` (or get_table() is not a list of rows)"
-            return z3.BoolVal(False)
-        return ops.int_term(d[1]) == sh[1]
+            c.note = "result is not a TableDim with an int `columns` (or get_table() is not a list of rows): shape not recognised"
+            return UNRECOGNISED
+        return z3.Implies(c.seqmax_facts, ops.int_term(d[1]) == sh[1])
 
     return FnContract(
         target=f"{DT}::{cls}.get_dim",
@@ -165,27 +168,34 @@ def image_contract(mod, cls):
         r = c.result
         return r if isinstance(r, VExt) and r.sort == "BytesIO" else None
 
+    def definitely_no_stream(c):
+        """The result has a definite kind that is not a stream (None, str, int, bytes ...): a counterexample by itself."""
+        r = c.result
+        return r is NONE or isinstance(r, (VStr, VInt, VBool, VReal)) or (isinstance(r, VExt) and r.sort == "Bytes")
+
     def e_stream(c):
         if stream(c) is None:
-            c.note = "get_bytes() does not return an io.BytesIO"
-        return z3.BoolVal(stream(c) is not None)
+            c.note = f"get_bytes() returns {c.result!r}, not an io.BytesIO"
+            return z3.BoolVal(False) if definitely_no_stream(c) else UNRECOGNISED
+        return z3.BoolVal(True)
 
     def e_pos(c):
         r = stream(c)
         if r is None:
-            return z3.BoolVal(False)
+            return UNRECOGNISED
         return common.bytesio_pos(c.st, r) == 0
 
     def e_content(c):
         r = stream(c)
         if r is None or f is None:
-            return z3.BoolVal(False)
+            c.note = "no stream result / no payload field (data, blob) recognised"
+            return UNRECOGNISED
         return CONTENT(r.t) == payload_term(cls, f, kind, c.args["self"].t)
 
     def e_size(c):
         r = stream(c)
         if r is None or f is None:
-            return z3.BoolVal(False)
+            return UNRECOGNISED
         me = c.args["self"].t
         inv = fld(cls, SIZE_FIELD, I)(me) == BLEN(payload_term(cls, f, kind, me))
         return z3.Implies(inv, BLEN(CONTENT(r.t)) == fld(cls, SIZE_FIELD, I)(me))
@@ -295,8 +305,8 @@ def populate_contract():
                 return z3.BoolVal(True)
             v = fields(c)[f]
             if not isinstance(v, VStr):
-                c.note = f"{f} is not a str after populate_from_path(<path>)"
-                return z3.BoolVal(False)
+                c.note = f"{f} is {v!r}, not a str, after populate_from_path(<path>)"
+                return z3.BoolVal(False) if v is NONE or isinstance(v, (VInt, VBool)) else UNRECOGNISED
             return want(v.t, pt)
         return g
 
@@ -326,10 +336,17 @@ def file_metadata_defaults(repo, tier):
     ok, why = False, "class missing"
     if node is not None:
         d = {b.target.id: b.value for b in node.body if isinstance(b, ast.AnnAssign) and isinstance(b.target, ast.Name)}
-        bad = [f for f in FILE_FIELDS if not (isinstance(d.get(f), ast.Constant) and d[f].value is None)]
-        ok, why = not bad, ("defaults not None: " + ",".join(bad)) if bad else "filename, file_extension, file_path, folder_path default to None"
+        def is_none_default(v):
+            if isinstance(v, ast.Constant) and v.value is None:
+                return True
+            if isinstance(v, ast.Call) and ast.unparse(v.func).split(".")[-1] == "field":
+                return any(k.arg == "default" and isinstance(k.value, ast.Constant) and k.value.value is None for k in v.keywords)
+            return False
+        bad = [f for f in FILE_FIELDS if not is_none_default(d.get(f))]
+        ok, why = not bad, ("default not recognised as None: " + ",".join(bad)) if bad else "filename, file_extension, file_path, folder_path default to None"
+    # an unrecognised way of declaring the default is decided natively (FileMetadataInterface() has all four fields None)
     return {"obligations": [ground_obligation("C04/data_types.py::FileMetadataInterface/module-invariant#path-fields-default-to-None", ok, why, DT,
-                                              kind="module-invariant", backend="ground")], "functions": []}
+                                              kind="module-invariant", backend="ground", definite=False)], "functions": []}
 
 
 # ------------------------------------------------------ accessor totality --
@@ -355,9 +372,12 @@ def accessor_contract(mod, cls, name, iface):
         kw = [(n, p_bool()) for n in names]       # the only extra parameters of accessors are boolean switches
 
     def e_str(c):
-        if not isinstance(c.result, VStr):
-            c.note = f"{name}() returns {c.result!r}, not a str, on a well-typed instance"
-        return z3.BoolVal(isinstance(c.result, VStr))
+        if isinstance(c.result, VStr):
+            return z3.BoolVal(True)
+        c.note = f"{name}() returns {c.result!r}, not a str, on a well-typed instance"
+        if c.result is NONE or isinstance(c.result, (VInt, VBool, VReal, VRef, VSeq, VTuple)):
+            return z3.BoolVal(False)        # a value of a definite non-str kind
+        return UNRECOGNISED
 
     def e_number(c):
         """get_metadata().unit_number / image_number is the stored number (positivity: construction sites, part e)."""
@@ -367,7 +387,7 @@ def accessor_contract(mod, cls, name, iface):
         if isinstance(r, VExt):
             return z3.BoolVal(True)
         c.note = f"{name}() returns {r!r}, not a metadata object"
-        return z3.BoolVal(False)
+        return z3.BoolVal(False) if r is NONE or isinstance(r, (VStr, VInt, VBool)) else UNRECOGNISED
 
     sch = E.class_schema(mod, cls) or {}
     nf = next((f for f in FLOW.NUMBER_FIELDS if f in sch), None)
@@ -376,8 +396,8 @@ def accessor_contract(mod, cls, name, iface):
         """ImageMetadata.image_number is the stored image number (whose positivity is the constructor-site obligation)."""
         r = c.result
         if not (isinstance(r, VRef) and c.st.obj(r.ref).kind == "obj" and isinstance(c.st.obj(r.ref).data.get("image_number"), VInt)):
-            c.note = "get_metadata() does not return an ImageMetadata with an int image_number"
-            return z3.BoolVal(False)
+            c.note = "get_metadata() does not return an ImageMetadata with an int image_number: shape not recognised"
+            return UNRECOGNISED
         return ops.int_term(c.st.obj(r.ref).data["image_number"]) == fld(cls, nf, I)(c.args["self"].t)
 
     ens = []
@@ -444,21 +464,36 @@ def install_re(reg, mod):
 PATTERNS = {}
 
 
-def odf_length_contract():
-    def e_kind(c):
-        ok = c.result is NONE or isinstance(c.result, VInt)
-        if not ok:
-            c.note = f"_odf_length_to_px returns {c.result!r}"
-        return z3.BoolVal(ok)
-    c = FnContract(
-        target=f"{DT}::_odf_length_to_px",
-        params=[("length", p_opt(p_str()))],
-        ensures=[("returns-int-or-None", e_kind)],
-        raises=[],
-        note="total on every str / None (called by OpenDocumentImage.get_metadata with the width / height texts of the document)",
-    )
-    c.call_outcomes = lambda ctx: [(z3.Bool(fresh_name("no_px")), NONE), (z3.BoolVal(True), VInt(z3.Int(fresh_name("px"))))]
-    return c
+def length_helper_contracts(mod):
+    """The module-level one-argument helpers that OpenDocumentImage.get_metadata calls (today: _odf_length_to_px) are put
+    under the contract `total on every str / None, returns int or None` -- found by the call, not by name, and identified
+    in obligation ids by their role, so renaming or splitting the helper keeps the obligations."""
+    meth = mod.functions.get("OpenDocumentImage.get_metadata")
+    if meth is None:
+        return []
+    names = []
+    for n in sorted((x for x in ast.walk(meth) if isinstance(x, ast.Call) and isinstance(x.func, ast.Name)), key=lambda x: (x.lineno, x.col_offset)):
+        fn = mod.functions.get(n.func.id)
+        if fn is not None and n.func.id not in names and len(fn.args.args) == 1 and not fn.args.kwonlyargs and len(n.args) == 1:
+            names.append(n.func.id)
+    out = []
+    for k, name in enumerate(names):
+        def e_kind(c, name=name):
+            if c.result is NONE or isinstance(c.result, VInt):
+                return z3.BoolVal(True)
+            c.note = f"{name} returns {c.result!r}, neither an int nor None"
+            return z3.BoolVal(False) if isinstance(c.result, (VStr, VBool, VReal)) else UNRECOGNISED
+        c = FnContract(
+            target=f"{DT}::{name}",
+            params=[(mod.functions[name].args.args[0].arg, p_opt(p_str()))],
+            ensures=[("returns-int-or-None", e_kind)],
+            raises=[],
+            note="total on every str / None (called by OpenDocumentImage.get_metadata with the width / height texts of the document)",
+        )
+        c.oid_name = f"OpenDocumentImage.get_metadata.length-helper-{k}"
+        c.call_outcomes = lambda ctx: [(z3.Bool(fresh_name("no_px")), NONE), (z3.BoolVal(True), VInt(z3.Int(fresh_name("px"))))]
+        out.append(c)
+    return out
 
 
 def install_opaque():
@@ -487,7 +522,7 @@ def contracts(reg):
     out.append(populate_contract())
     out.extend(accessor_contracts(mod))
     install_re(reg, mod)
-    out.append(odf_length_contract())
+    out.extend(length_helper_contracts(mod))
     return out
 
 
@@ -556,6 +591,9 @@ ASSUMPTIONS = [
     "dc:description of docProps/core.xml (third-party contract; validated natively on a crafted workbook)",
     "a `sat` answer on a path that contains an over-approximation (EXC-ANY call, loop cut without invariant, float model) is not a "
     "counter-model: the obligation is UNDECIDED unless replay/C04.py reproduces a failing input natively",
+    "FOLD-MAX: a loop whose one symbolic step is proved to be acc' = max(acc, g(i)) with g(i) >= the initial value computes "
+    "max(g(0..n-1), default=initial) (induction on n; the step is checked by z3 on the real body, the induction is trusted)",
+    "seq_max facts used in proofs: max over an empty sequence is the default, over one element that element",
     "PY-EXC / EXC-ANY, PY-STR, PY-INT",
 ]
 BOUNDED = [
@@ -597,9 +635,14 @@ def known_findings(kf, violations, repo, tier):
         still = bool(res.get("reproduced"))
         covers = []
         if still:
-            for oid in f.get("covers", [f["obligation"]]):
-                if oid in vio and replay({"property": "C04", "obligation": oid, "repo": repo}).get("reproduced"):
-                    covers.append(oid)
+            import fnmatch
+            for oid in vio:
+                # the finding covers a decode site of its file only when that site's own replay fails by the recorded cause
+                # (a document-declared charset); site ids are ordinals, so the match is by pattern, not by a fixed id
+                if any(fnmatch.fnmatchcase(oid, pat) for pat in f.get("covers", [f["obligation"]])):
+                    r = replay({"property": "C04", "obligation": oid, "repo": repo})
+                    if r.get("reproduced") and "declared_charset" in (r.get("inputs") or {}):
+                        covers.append(oid)
         out.append({"finding": f["id"], "still_fails": still, "line": f"{f['id']}: {f['what']}", "covers": covers,
                     "exclusion": f.get("exclusion"), "witness_replay": res.get("observed", res.get("note", ""))})
     return out
